@@ -34,7 +34,7 @@ SPEC = {
                   "op_put_blocks": 4, "crash_points_executed": 5, "snapshot_probes": 100, "file_backed_scenarios": 6, "distinct_nontrivial": 25,
                   "oracle_reader_interleavings": 100, "oracle_reader_saw_before": 60, "oracle_reader_saw_after": 4,
                   "oracle_reader_scenarios_live_anchor_invalidated_by_truncation": 3},
-        "thorough": {"scenarios": 100, "write_site_faults_injected": 60000, "vm_step_faults_injected": 40000, "retries_checked": 80000,
+        "thorough": {"scenarios": 50, "write_site_faults_injected": 60000, "vm_step_faults_injected": 40000, "retries_checked": 80000,
                      "op_put_blocks": 150, "op_truncate_to_height": 40, "op_create_account": 40, "op_lock_outputs": 40,
                      "crash_points_executed": 500, "snapshot_probes": 5000, "reader_writer_interleavings": 100, "distinct_nontrivial": 120,
                      "oracle_reader_interleavings": 5000, "oracle_reader_saw_before": 3000, "oracle_reader_saw_after": 100,
